@@ -3,6 +3,7 @@ import LyModel.Valid.LemmasMinMax
 import LyModel.Valid.LemmasUnique
 import LyModel.Valid.LemmasNew
 import LyModel.Valid.LemmasFamily
+import LyModel.Valid.LemmasIff2
 /-!
 # C02 — validation accepts exactly the instances that satisfy the schema
 
@@ -119,8 +120,13 @@ theorem cases_fresh (sibs : List DNode) (cases : List STree) (hnew : ∀ n ∈ s
 
 /-! ## constraint families: the model's check = the constraint of the specification, on one sibling list
 
-`validate_ok_iff_valid` is covered family by family (the composition over the whole tree is evaluated on the implementation:
-law `iff` of tools/checks/c02.py, both directions, every run):
+The families below are composed over the whole tree into `validate_ok_iff_valid` (end of this file) for plain schemas.
+-- OPEN: `validate_ok_iff_valid` for schemas with `choice` / `case`, `default`, `unique` and non-presence containers (implicit
+-- data interleaves with the checks; the F60 / F65 / F66 variants of the code violate it there).  For that class the iff is
+-- evaluated on the implementation (law `iff` of tools/checks/c02.py, both directions, every run) and the model is compared with
+-- the specification by the `spec` operation; what is proved is the family-level equivalences of this table.
+-- OPEN: `validate_error_tag` (first error = first violated constraint in the C's check order) and `verdict_order_independent`
+-- (the verdict is invariant under reordering siblings of different schema nodes) are laws (`tag`, `apptag`, `order`) only.
 
 | family (error kind)              | theorem                                   | RFC 7950 |
 |----------------------------------|-------------------------------------------|----------|
@@ -182,5 +188,67 @@ theorem state_family (S : Schema) (o : VOpts) (cx : Cx) : ∀ (rest before : Lis
         simp [hns, hc', Out.err, Out.errs]
     · have : o.noState = false := by simpa using hns
       simp [this]
+
+
+/-! ## the whole of `lyd_validate` against the specification -/
+
+/-- **`validate_ok_iff_valid`, plain schemas**: for a schema of containers with presence, lists, leaf-lists and leaves without
+`default`, `choice`, `unique` and without a mandatory node below a non-presence container (`PlainSane`: no implicit data and no case
+logic is involved; `min-elements` ≤ `max-elements` < 2³²) and every instance tree of it as the builders or the parsers leave it
+(every node `LYD_NEW` and nothing else, `isFreshL`; every node an instance of a schema child of its parent's schema node, `placedL`,
+of the right node kind, `shapedL`), under every option set without `LYD_VALIDATE_OPERATIONAL`:
+the instance can be built and `lyd_validate` logs no error **iff** the instance satisfies the RFC 7950 specification `Valid`
+(duplicates §7.5–7.8, keys §7.8.2, min/max §7.7.5–6, mandatory §7.6.5, values §9, no state data under no-state).
+Unbounded in the schema, the tree and the values.  The remaining hypotheses are about the tables, not the data: the schema-tree view
+is consistent with the flat table (`KidsLookupOk`, `InfoOk`; decidable: `lookupOkB`, `infoOkB`), the walk has fuel for the schema depth,
+sibling lists are shorter than 2³² (the C counts them in a `uint32_t`). -/
+theorem validate_ok_iff_valid (X : SchemaX) (o : VOpts) (hop : o.operational = false) (hu : X.uniques = []) (hl : KidsLookupOk X)
+    (hps : PlainSane X) (hio : InfoOk X) (t : List DNode) (hp : placedL X X.top t = true) (hsh : shapedL X X.top t = true)
+    (hh : sheightL X.top ≤ walkFuel X t) (hfr : isFreshL t = true) (hlen : lenOkL t = true) (hlen0 : t.length ≤ uint32Max) :
+    (buildL X.base t = none ∧ (validate X o t).errs = []) ↔ Valid X o t := by
+  unfold Valid violations
+  by_cases hpe : (o.present && t.isEmpty) = true
+  · simp only [hpe, if_true, iff_true]
+    have ht : t = [] := by
+      simp only [Bool.and_eq_true, List.isEmpty_iff] at hpe; exact hpe.2
+    subst ht
+    refine ⟨rfl, ?_⟩
+    unfold validate
+    simp only [hpe, if_true]
+    rfl
+  · have hpe' : (o.present && t.isEmpty) = false := by simpa using hpe
+    simp only [hpe', Bool.false_eq_true, if_false]
+    rw [validate_errs_iff X o hop hu hl hps t hp hh hfr hlen hlen0 hpe',
+      spec_iff_lvlOk X o hu hl (fun k hk => (hps k hk).1) hio t hp hfr hsh, lvlOk_top_iff]
+
+/-- the example schema: `container c { presence; list l { key k; leaf k; leaf m { mandatory true; } } leaf-list ll { type int8;
+min-elements 1; max-elements 2; } leaf s { config false; } }` -/
+def Sp : Schema := { modName := "ex2", nodes := [
+  { depth := 0, kind := .container, name := "c", presence := true },
+  { depth := 1, kind := .list, name := "l", nkeys := 1 },
+  { depth := 2, kind := .leaf, name := "k", iskey := true },
+  { depth := 2, kind := .leaf, name := "m", mandatory := true },
+  { depth := 1, kind := .leaflist, name := "ll", ty := .int8, min := 1, max := 2 },
+  { depth := 1, kind := .leaf, name := "s", config := false }] }
+def Xp : SchemaX := SchemaX.ofSchema Sp
+def fl : Flags := { new := true }
+/-- a valid instance -/
+def tOk : List DNode := [.inner 0 fl [] [.inner 1 fl [] [.term 2 fl [] [49], .term 3 fl [] [120]], .term 4 fl [] [49]]]
+/-- two entries with the same key, the second without its mandatory leaf, no `ll`, state data -/
+def tBad : List DNode := [.inner 0 fl [] [.inner 1 fl [] [.term 2 fl [] [49], .term 3 fl [] [120]], .inner 1 fl [] [.term 2 fl [] [49]],
+  .term 5 fl [] [121]]]
+
+/-- non-vacuity: the hypotheses hold for the example schema and both trees; the first tree is valid and accepted, the second is
+refused by both sides (the model logs the duplicate on both entries, the missing `ll` and the missing mandatory leaf; with `LYD_VALIDATE_NO_STATE`
+the state leaf as well) -/
+example : KidsLookupOk Xp ∧ PlainSane Xp ∧ InfoOk Xp ∧ Xp.uniques = [] ∧
+    (placedL Xp Xp.top tOk && shapedL Xp Xp.top tOk && isFreshL tOk && lenOkL tOk) = true ∧
+    (placedL Xp Xp.top tBad && shapedL Xp Xp.top tBad && isFreshL tBad && lenOkL tBad) = true ∧
+    sheightL Xp.top ≤ walkFuel Xp tOk ∧ sheightL Xp.top ≤ walkFuel Xp tBad ∧
+    Valid Xp {} tOk ∧ (validate Xp {} tOk).errs = [] ∧ buildL Sp tOk = none ∧
+    ¬ Valid Xp {} tBad ∧ ((validate Xp {} tBad).errs.map (·.kind)) = [.dup, .dup, .noMin, .noMand] ∧
+    violations Xp { noState := true } tBad = [.dup, .noMand, .noMin, .unexpState] := by
+  refine ⟨lookupOk_of_B Xp (by decide), plainSane_of_B Xp (by decide), infoOk_of_B Xp (by decide), by decide, by decide, by decide,
+    by decide, by decide, by decide, by decide, by decide, by decide, by decide, by decide⟩
 
 end LyModel.Props.C02
